@@ -163,6 +163,7 @@ def rule_M(ctx):
     m = ctx.m
     r = RuleResult('M', 'member resolution of self.<attr> for every method x concrete class')
     base_ok = {'__class__', '__doc__', '__dict__', '__name__', '__module__'}
+    aug_targets = {}
     for cname, ci0 in m.classes.items():
         ctxs = [cname]
         fields = None
@@ -177,7 +178,7 @@ def rule_M(ctx):
                     selfname = (f.node.args.posonlyargs + f.node.args.args)[0].arg
                     for x in ast.walk(f.node):
                         if not (isinstance(x, ast.Attribute) and isinstance(x.value, ast.Name) and x.value.id == selfname
-                                and isinstance(x.ctx, ast.Load)):
+                                and (isinstance(x.ctx, ast.Load) or id(x) in aug_targets.setdefault(f.key, {id(a.target) for a in ast.walk(f.node) if isinstance(a, ast.AugAssign)}))):
                             continue
                         kind, _ = m.lookup(c, x.attr)
                         if kind is not None or x.attr in base_ok:
@@ -193,6 +194,22 @@ def rule_M(ctx):
                                f"'{x.attr}' does not resolve on {c} (MRO {' > '.join(m.mro[c])}): calling {f.name} on a {c} raises AttributeError",
                                loc=f.loc(x), extra={'ctx': c})
         r.constructs.add(cname)
+    # method calls on other typed receivers (locals, parameters): the attribute must exist on every class the receiver can have
+    for fa in ctx.R.all_analyses():
+        for cs in fa.unresolved:
+            if cs.kind != 'call' or cs.recv is None or not cs.recv_type:
+                continue
+            libs = [t for t in cs.recv_type if t in m.classes]
+            if not libs or len(libs) != len([t for t in cs.recv_type if t != 'none']):
+                continue
+            missing = [t for t in libs if m.lookup(t, cs.name)[0] is None and cs.name not in class_fields(ctx, t)]
+            if isinstance(cs.recv, ast.Name) and cs.recv.id == 'self':
+                continue      # reported above
+            if missing:
+                r.fail(fa.func.key, f'{norm(cs.recv)}.{cs.name} [{"/".join(sorted(missing))}]', f"'{cs.name}' is called on an object that can be a "
+                       f"{'/'.join(sorted(missing))}, which has no such attribute: AttributeError", loc=fa.func.loc(cs.node))
+            else:
+                r.ok(None)
     # slot fields not assigned by every constructor must be read under a hasattr guard
     bits = m.classes['Bits']
     for f in bits.methods.values():
